@@ -21,7 +21,7 @@ void Plan::setd(const char* k, double v) { char b[64]; snprintf(b, sizeof b, "%a
 static const char* kind_name(StepKind k) {
   switch (k) {
     case ST_SETE: return "SETE"; case ST_SETT: return "SETT"; case ST_SETP: return "SETP";
-    case ST_SETVEC: return "SETVEC"; case ST_OP: return "OP"; case ST_NEG: return "NEG"; default: return "MARK";
+    case ST_SETVEC: return "SETVEC"; case ST_OP: return "OP"; case ST_NEG: return "NEG"; case ST_USERW: return "USERW"; default: return "MARK";
   }
 }
 
@@ -31,7 +31,7 @@ std::string step_to_string(const Plan& p, const Step& s) {
   char b[64];
   o << "S " << (int)s.group << " " << kind_name(s.kind);
   switch (s.kind) {
-    case ST_SETE: case ST_SETT: case ST_SETP:
+    case ST_SETE: case ST_SETT: case ST_SETP: case ST_USERW:
       o << " " << s.slot << " " << s.vals.size();
       for (double v : s.vals) { snprintf(b, sizeof b, " %a", v); o << b; }
       break;
@@ -97,8 +97,8 @@ bool plan_read(Plan& p, const char* path, std::string& err) {
     } else if (tag == "S") {
       Step s; int g; std::string kind;
       is >> g >> kind; s.group = (uint8_t)g;
-      if (kind == "SETE" || kind == "SETT" || kind == "SETP") {
-        s.kind = kind == "SETE" ? ST_SETE : kind == "SETT" ? ST_SETT : ST_SETP;
+      if (kind == "SETE" || kind == "SETT" || kind == "SETP" || kind == "USERW") {
+        s.kind = kind == "SETE" ? ST_SETE : kind == "SETT" ? ST_SETT : kind == "USERW" ? ST_USERW : ST_SETP;
         size_t n; is >> s.slot >> n;
         for (size_t i = 0; i < n; ++i) { std::string h; is >> h; s.vals.push_back(std::strtod(h.c_str(), nullptr)); }
       } else if (kind == "SETVEC") {
@@ -210,6 +210,30 @@ void gen_elem(const GroupVT* vt, Rng& r, const ElemSpec& sp, double* c) {
     }
     if (sp.norm_scale != 1.0)
       for (int i = 0; i < b.len; ++i) c[b.off + i] = round_scalar(vt, c[b.off + i] * sp.norm_scale);
+  }
+}
+
+void perturb_elem(const GroupVT* vt, Rng& r, const double* in, double dtheta, double dlin, double* out) {
+  for (int i = 0; i < vt->rep; ++i) out[i] = in[i];
+  for (int k = 0; k < vt->n_lin; ++k)
+    for (int i = 0; i < vt->lin[k].len; ++i) out[vt->lin[k].off + i] = round_scalar(vt, in[vt->lin[k].off + i] + r.sym(dlin));
+  for (int k = 0; k < vt->n_unit; ++k) {
+    const Block& b = vt->unit[k];
+    if (b.len == 2) {
+      long double c = cosl((long double)dtheta), s = sinl((long double)dtheta);
+      long double re = in[b.off] * c - in[b.off + 1] * s, im = in[b.off] * s + in[b.off + 1] * c;
+      long double n = sqrtl(re * re + im * im);
+      out[b.off] = round_scalar(vt, (double)(re / n)); out[b.off + 1] = round_scalar(vt, (double)(im / n));
+    } else {
+      double u[3]; gen_unit_axis(r, u);
+      long double h = (long double)dtheta / 2, sh = sinl(h), ch = cosl(h);
+      long double dx = u[0] * sh, dy = u[1] * sh, dz = u[2] * sh, dw = ch;
+      long double x = in[b.off], y = in[b.off + 1], z = in[b.off + 2], w = in[b.off + 3];
+      long double q[4] = {w * dx + x * dw + y * dz - z * dy, w * dy - x * dz + y * dw + z * dx,
+                          w * dz + x * dy - y * dx + z * dw, w * dw - x * dx - y * dy - z * dz};
+      long double n = sqrtl(q[0] * q[0] + q[1] * q[1] + q[2] * q[2] + q[3] * q[3]);
+      for (int i = 0; i < 4; ++i) out[b.off + i] = round_scalar(vt, (double)(q[i] / n));
+    }
   }
 }
 
